@@ -37,11 +37,34 @@ def jresMag (r : Res Mag) : Json :=
 
 def jtok (t : Tok) : Json := jname t.text
 
+def subtrees : Tree → List Tree
+  | .num q => [.num q]
+  | .name s => [.name s]
+  | .mul a b => .mul a b :: (subtrees a ++ subtrees b)
+  | .div a b => .div a b :: (subtrees a ++ subtrees b)
+  | .pow a x => .pow a x :: subtrees a
+
+/-- for the harness only (what lies outside the decimal-literal abstraction): does some sub-expression have an exact
+magnitude beyond 1e±150 (doubles may overflow/underflow on the way), or an inexact (irrational-power) magnitude? -/
+def flags (cfg : Cfg) (s : List Char) : Json :=
+  match parseTokens (lex s) with
+  | .error _ => Json.mkObj []
+  | .ok t =>
+    let vals := (subtrees t).map (evalTree cfg)
+    let big : Rat := (10 : Rat) ^ (150 : Nat)
+    let extreme := vals.any fun r => match r with
+      | .ok ⟨.exact q, _⟩ => q != 0 && (absR q > big || absR q < 1 / big)
+      | _ => false
+    let inexact := vals.any fun r => match r with
+      | .ok ⟨.inexact _, _⟩ => true
+      | _ => false
+    Json.mkObj [("extreme", Json.bool extreme), ("inexactSub", Json.bool inexact)]
+
 def handle (op : String) (j : Json) : Option (Except String Json) :=
   match op with
   | "c10.eval" => some do
       let t ← str j "text"
-      pure (jres (evalStr liveCfg t.toList))
+      pure ((jres (evalStr liveCfg t.toList)).setObjVal! "flags" (flags liveCfg t.toList))
   | "c10.tokens" => some do
       let t ← str j "text"
       pure (Json.arr ((lex t.toList).map jtok).toArray)
